@@ -734,6 +734,7 @@ func runC10(p *Program, r *Report) {
 	c10readside(p, r, "C10.readside.ctx")
 	cRwc(p, r, "C10.rwc")
 	c05msglock(p, r, "C10.msglock")
+	c05noreacquire(p, r, getLockEnv(p), "C10.noreacquire")
 }
 
 func c10loop(p *Program, r *Report, rule string) {
